@@ -323,6 +323,7 @@ class BuiltinMixin:
         if isinstance(d, SDict):
             k = self.to_val(args[0])
             default = self.to_val(args[1]) if len(args) > 1 else Val.VNone
+            self.dict_hint(d, k)
             return SDyn(z3.If(z3.Select(d.has, k), z3.Select(d.get, k), default))
         if isinstance(d, SDictC):
             k = z3.simplify(args[0].t) if isinstance(args[0], SStr) else None
@@ -518,6 +519,39 @@ class BuiltinMixin:
         if args:
             raise Unsupported('strip(chars)')
         return SStr(uf('str_strip', z3.StringSort(), z3.StringSort())(f.self_.t))
+
+    def b_m_format(self, fr, f, args, kw, node):
+        """str.format on a literal template whose replacement fields are plain ({} / {0} / {name}, no conversion or format
+        spec) and whose arguments are strings: the concatenation of the literal pieces and the arguments"""
+        import string as _string
+        tpl = z3.simplify(f.self_.t) if isinstance(f.self_, SStr) else None
+        if tpl is None or not z3.is_string_value(tpl):
+            raise Unsupported('format on a non-literal template')
+        pieces, auto = [], 0
+        for lit, field, spec, conv in _string.Formatter().parse(tpl.as_string()):
+            if lit:
+                pieces.append(z3.StringVal(lit))
+            if field is None:
+                continue
+            if spec or conv:
+                raise Unsupported('format spec / conversion')
+            if field == '':
+                v = args[auto]
+                auto += 1
+            elif field.isdigit():
+                v = args[int(field)]
+            elif field in kw:
+                v = kw[field]
+            else:
+                raise Unsupported(f'format field {field!r}')
+            if isinstance(v, SDyn) and not self.specmode and self.branch(Val.is_VStr(v.t)):
+                v = SStr(Val.s(v.t))
+            if not isinstance(v, SStr):
+                raise Unsupported('format of a non-string argument')
+            pieces.append(v.t)
+        if not pieces:
+            return SStr(z3.StringVal(''))
+        return SStr(z3.Concat(*pieces) if len(pieces) > 1 else pieces[0])
 
     def b_m_startswith(self, fr, f, args, kw, node):
         return SBool(z3.PrefixOf(args[0].t, f.self_.t))
